@@ -191,6 +191,38 @@ func (sc *c20Scenario) Run(s *simrt.Sim) {
 			sc.smoke = append(sc.smoke, Violation{Clause: "api-smoke", Fingerprint: "CurryNew", Detail: fmt.Sprintf("CurryNew: Call(1).Call(b,3).Call(4) with MarkDone at 3 args: invocations %v, Result %v, IsDone %v", seen, op.Val, cw.IsDone())})
 		}
 	}
+	// MarkDone freezes Result even when the result is (or refers to) the argument list fn was invoked
+	// with: Calls made afterwards - from two threads here - are ignored and change nothing
+	{
+		ca := fpgo.CurryNewGenerics(func(self *fpgo.CurryDef[int, []int], args ...int) []int {
+			if len(args) >= 3 {
+				self.MarkDone()
+			}
+			return args
+		})
+		var before string
+		h.Do("main", "Curry-slice-result", nil, func() (interface{}, error) {
+			ca.Call(1).Call(2, 3)
+			before = fmt.Sprint(ca.Result())
+			return before, nil
+		})
+		late := []*simrt.Thread{
+			s.Go("late-a", func() {
+				h.Do("late-a", "Call-after-done", 4, func() (interface{}, error) { ca.Call(4); return nil, nil })
+			}),
+			s.Go("late-b", func() {
+				h.Do("late-b", "Call-after-done", nil, func() (interface{}, error) { ca.Call(); ca.Call(5, 6); return nil, nil })
+			}),
+		}
+		if s.WaitUntilTimeout(allDone(late), 10*time.Minute) {
+			op := h.Do("main", "Result", nil, func() (interface{}, error) { return fmt.Sprint(ca.Result()), nil })
+			if op.Panic == "" && (before != "[1 2 3]" || op.Val != before) {
+				sc.smoke = append(sc.smoke, Violation{Clause: "mark-done", Fingerprint: "result-changed-after-done", Detail: fmt.Sprintf("fn returns its argument list; Result() was %s when MarkDone had been called (want [1 2 3]) and %v after three ignored Calls", before, op.Val)})
+			}
+		} else {
+			sc.hung = true
+		}
+	}
 	// two independent instances used alternately must not see each other's arguments (both constructors)
 	{
 		mk := func(tag string, log *[]string) func(c *fpgo.CurryDef[interface{}, interface{}], args ...interface{}) interface{} {
